@@ -1,8 +1,8 @@
 SPECIFICATION Spec
 CONSTANTS
-  MaxTs = 9
-  MaxLen = 6
-  Widths = {1,2,3,4,5}
+  MaxTs = 7
+  MaxLen = 5
+  Widths = {1,2,3,4}
   Slides = {1,2,3}
   Strategies <- StratMore
   FixEvict = TRUE
